@@ -63,6 +63,21 @@ def symbolize_weights(c, mol, mode="all", lo=W_LO, hi=W_HI):
     return out
 
 
+class Ref:
+    """identity-preserving reference (survives copy.deepcopy of the holder)"""
+
+    __slots__ = ("obj",)
+
+    def __init__(self, obj):
+        self.obj = obj
+
+    def __deepcopy__(self, memo):
+        return self
+
+    def __copy__(self):
+        return self
+
+
 class Observer:
     """Records attach_other calls, MolGen creations, mass measurements and draws."""
 
@@ -91,7 +106,9 @@ def install_observers(g, obs, target_hi=None, target_lo=None):
         o = OBS[0]
         if o is not None:
             self._sx_serial = len(o.molgens)
-            self._sx_residues = [(token, 0, self._mol.GetNumAtoms())]
+            self._sx_token = Ref(token)
+            self._sx_bonds = []
+            self._sx_residues = [(Ref(token), 0, self._mol.GetNumAtoms())]
             o.molgens.append((self, token))
             o.events.append(("new", token))
 
@@ -111,18 +128,47 @@ def install_observers(g, obs, target_hi=None, target_lo=None):
             "self_serial": getattr(self, "_sx_serial", None),
             "other_serial": getattr(other, "_sx_serial", None),
             "self_obj": self,
+            "site": sys._getframe(1).f_code.co_name,
+            "other_token": getattr(other, "_sx_token", Ref(None)).obj,
         }
         res = MolGen._sx_orig_attach(self, self_bond_idx, other, other_bond_idx)
         rec["after_open"] = [bd_state(b) for b in res.bond_descriptors]
         rec["natoms_after"] = res._mol.GetNumAtoms()
         rec["nbonds_after"] = res._mol.GetNumBonds()
         rec["result_is_self"] = res is self
+        rec["mol_after"] = res._mol
         offs = rec["natoms_self"]
+        a_bd = rec["self_open"][self_bond_idx] if self_bond_idx < len(rec["self_open"]) else None
+        b_bd = rec["other_open"][other_bond_idx] if other_bond_idx < len(rec["other_open"]) else None
+        if a_bd is not None and b_bd is not None:
+            res._sx_bonds = list(getattr(self, "_sx_bonds", [])) + [
+                (x + offs, y + offs, t) for (x, y, t) in getattr(other, "_sx_bonds", [])
+            ] + [(int(a_bd["atom"]), int(b_bd["atom"]) + offs, a_bd["bond_type"])]
         res._sx_residues = list(getattr(self, "_sx_residues", [])) + [
             (t, a + offs, b + offs) for (t, a, b) in getattr(other, "_sx_residues", [])
         ]
         o.attachments.append(rec)
         o.events.append(("attach", rec))
+        if PROPHECY[0] and core.have_ctx() and rec["site"] == "add_repeat_unit":
+            # (1) the provisional capping of the previous iteration has just been discarded by
+            #     the code: its picks keep one representative value (no alternatives explored);
+            # (2) decide the loop's comparison *before* the provisional capping of this iteration
+            #     (harness-side split only), so that capping picks are explored in full exactly
+            #     on the side where the capped copy is kept.
+            c = core.ctx()
+            c.discard_tentative()
+            f = sys._getframe(2)
+            if f.f_code.co_name == "generate_repeat_units_and_finalize" and len(res.bond_descriptors) > 0:
+                try:
+                    start = f.f_locals["starting_mol_weight"]
+                    target = f.f_locals["target_mol_weight"]
+                    from rdkit.Chem import Descriptors as _D
+
+                    m = _D.HeavyAtomMolWt(res.mol)
+                    bool(m - start > target)
+                    c.begin_tentative()
+                except KeyError:
+                    pass
         return res
 
     MolGen.__init__ = init
@@ -139,6 +185,8 @@ def install_observers(g, obs, target_hi=None, target_lo=None):
             if o is not None:
                 o.masses.append((v, mol.GetNumAtoms()))
                 o.events.append(("mass", v, mol.GetNumAtoms()))
+                if core.have_ctx():
+                    core.ctx().end_tentative()
             return v
 
         def __getattr__(self, n):
@@ -150,8 +198,7 @@ def install_observers(g, obs, target_hi=None, target_lo=None):
     # draws
     def draw(self, rng=None):
         o = OBS[0]
-        c = core.ctx()
-        t = c.fresh_real("target", DRAW_BOUNDS[0], DRAW_BOUNDS[1], hi_strict=True)
+        t = DRAW_FN[0](self, rng)
         if o is not None:
             o.draws.append((self, t, rng))
             o.events.append(("draw", self, t))
@@ -164,8 +211,29 @@ def install_observers(g, obs, target_hi=None, target_lo=None):
             cls.draw_mw = draw
 
 
+def symbolic_draw(bounds_by_dist, default_hi=None):
+    """draw stub: a fresh real target, unconstrained below, < hi above (hi per distribution object)"""
+
+    def fn(dist, rng):
+        c = core.ctx()
+        hi = bounds_by_dist.get(id(dist), default_hi)
+        return c.fresh_real("target", None, hi, hi_strict=True)
+
+    return fn
+
+
+def scripted_draw(values):
+    it = iter(values)
+
+    def fn(dist, rng):
+        return next(it)
+
+    return fn
+
+
 OBS = [None]
-DRAW_BOUNDS = [None, None]
+DRAW_FN = [None]
+PROPHECY = [True]
 
 
 def bd_state(bd):
@@ -194,21 +262,3 @@ def compatible(a, b):
     return pair in (("$", "$"), ("<", ">"), (">", "<"))
 
 
-def run_generate(c, g, text, target_hi, target_lo=None, weights=True, zero_threshold=0,
-                 on_choice=None, prepare=None):
-    """One symbolic execution of Molecule(text).generate(rng=SymRng)."""
-    mol = g.Molecule(text)
-    roles = symbolize_weights(c, mol) if weights else {}
-    if prepare is not None:
-        prepare(mol, roles)
-    obs = Observer()
-    install_observers(g, obs)
-    OBS[0] = obs
-    DRAW_BOUNDS[0] = target_lo
-    DRAW_BOUNDS[1] = target_hi
-    rng = SymRng(zero_threshold=zero_threshold, on_choice=on_choice)
-    try:
-        result = mol.generate(rng=rng)
-    finally:
-        OBS[0] = None
-    return mol, roles, obs, rng, result
